@@ -1,11 +1,13 @@
 //! C06 (value round-trip part only): decode(encode(v)) == v for small era values, symbolic scalars, concrete shapes.
-//! fn: Encode/Decode impls of pallas_primitives::{RationalNumber, ExUnits, TransactionInput, StakeCredential, Nonce, Metadatum}, conway::{DRep, Voter, GovActionId, Vote}
+//! fn: Encode/Decode impls of pallas_primitives::{RationalNumber, ExUnits, TransactionInput, StakeCredential, Nonce, Metadatum}, conway::{DRep, Voter, GovActionId, Vote}, byron::Twit
 //! stub: std::fmt::format -> empty String
+//! stub: minicbor::encode::Error::write -> Error::message("") (drops the writer error; Kani ICEs on the generic original)
 //! outside: quick tier holds only the hash/flag-carrying types; every harness with a symbolic integer (RationalNumber, ExUnits, TransactionInput, GovActionId, Metadatum::Int) is thorough tier because minicbor's integer encoder branches five ways on the value (rational_8_8: 113 s, the others: no verdict in 150 s under load)
-//! outside: byte-isomorphism on the 1777 corpus blocks (replaying fixed artefacts is not a solver question), whole Block/Tx values, anything holding a multi-entry map, Relay / Anchor / Certificate / byron types / Metadatum Text (String: std UTF-8 validation gives no verdict), Metadatum Array/Map
+//! outside: byte-isomorphism on the 1777 corpus blocks (replaying fixed artefacts is not a solver question), whole Block/Tx values, anything holding a multi-entry map, Relay / Anchor / Certificate / byron types other than Twit / Metadatum Text (String: std UTF-8 validation gives no verdict), Metadatum Array/Map
 use pallas_codec::minicbor;
 use pallas_codec::utils::Int;
 use pallas_crypto::hash::Hash;
+use pallas_primitives::byron::Twit;
 use pallas_primitives::conway::{DRep, GovActionId, Vote, Voter};
 use pallas_primitives::{ExUnits, Metadatum, Nonce, NonceVariant, RationalNumber, StakeCredential, TransactionInput};
 
@@ -35,6 +37,7 @@ macro_rules! rt {
         #[kani::proof]
         #[kani::unwind(6)]
         #[kani::stub(std::fmt::format, crate::stubs::fmt_format_stub)]
+        #[kani::stub(pallas_codec::minicbor::encode::Error::write, crate::stubs::mcb_write_err_stub)]
         fn $name() {
             let v: $t = $mk;
             let mut buf = [0u8; $buf];
@@ -103,6 +106,18 @@ rt!(c06_t_metadatum_int_4, Metadatum, 16, Metadatum::Int(int_in(4).0), |a, b| ma
 rt!(c06_t_metadatum_int_8, Metadatum, 16, Metadatum::Int(int_in(8).0), |a, b| matches!((a, b), (Metadatum::Int(x), Metadatum::Int(y)) if i128::from(*x) == i128::from(*y)));
 // bound: Metadatum::Bytes of 3 symbolic bytes; unwind 6
 rt!(c06_q_metadatum_bytes3, Metadatum, 16, { let b: [u8; 3] = kani::any(); Metadatum::Bytes(b.to_vec().into()) }, |a, b| matches!((a, b), (Metadatum::Bytes(x), Metadatum::Bytes(y)) if x.len() == 3 && y.len() == 3 && x[0] == y[0] && x[1] == y[1] && x[2] == y[2]));
+
+// bound: byron Twit PkWitness / RedeemWitness (variant concrete per harness), key and signature of 1 symbolic byte each; unwind 6 (ScriptWitness: no verdict in 300 s, kept as _x_)
+fn bv1() -> minicbor::bytes::ByteVec {
+    let b: [u8; 1] = kani::any();
+    b.to_vec().into()
+}
+fn bv1_eq(a: &minicbor::bytes::ByteVec, b: &minicbor::bytes::ByteVec) -> bool {
+    a.len() == 1 && b.len() == 1 && a[0] == b[0]
+}
+rt!(c06_q_byron_twit_pk, Twit, 24, Twit::PkWitness(pallas_codec::utils::CborWrap((bv1(), bv1()))), |a, b| matches!((a, b), (Twit::PkWitness(x), Twit::PkWitness(y)) if bv1_eq(&x.0 .0, &y.0 .0) && bv1_eq(&x.0 .1, &y.0 .1)));
+rt!(c06_q_byron_twit_redeem, Twit, 24, Twit::RedeemWitness(pallas_codec::utils::CborWrap((bv1(), bv1()))), |a, b| matches!((a, b), (Twit::RedeemWitness(x), Twit::RedeemWitness(y)) if bv1_eq(&x.0 .0, &y.0 .0) && bv1_eq(&x.0 .1, &y.0 .1)));
+rt!(c06_x_byron_twit_script, Twit, 32, Twit::ScriptWitness(pallas_codec::utils::CborWrap(((kani::any::<u8>() as u16, bv1()), (kani::any::<u8>() as u16, bv1())))), |a, b| matches!((a, b), (Twit::ScriptWitness(x), Twit::ScriptWitness(y)) if x.0 .0 .0 == y.0 .0 .0 && x.0 .1 .0 == y.0 .1 .0 && bv1_eq(&x.0 .0 .1, &y.0 .0 .1) && bv1_eq(&x.0 .1 .1, &y.0 .1 .1)));
 
 /// vacuity twin: must come back FAILED
 #[kani::proof]
